@@ -125,7 +125,7 @@ Definition upd2 {A} (f : N -> N -> A) (n k : N) (v : A) : N -> N -> A :=
 Record world := {
   w_now : N;
   w_st : store;
-  w_conns : N -> N -> bool;        (* node, conn: SessionManager.connMap *)
+  w_conns : N -> N -> bool;        (* node, conn: in SessionManager.connMap with a usable stream *)
   w_ctl : N -> N -> option N;      (* node, conn -> client id of the authenticated control connection (ClientRegistry.connMap) *)
   w_idx : N -> N -> option N }.    (* node, client -> conn (ClientRegistry.clientIDMap) *)
 
@@ -150,6 +150,10 @@ Definition reg_remove (n o : N) (ctl idx : N -> N -> option N) : (N -> N -> opti
   | Some y => (upd2 ctl n o None, if opt_is (idx n y) o then upd2 idx n y None else idx)
   end.
 
+(* both also close the removed connection's stream: no later handshake can succeed on it *)
+Definition reg_close (n o : N) (ctl : N -> N -> option N) (conns : N -> N -> bool) : N -> N -> bool :=
+  match ctl n o with Some _ => upd2 conns n o false | None => conns end.
+
 Definition step (v : variant) (b : backend) (ttl : N) (w : world) (e : event) : world :=
   match e with
   | Connect n c =>
@@ -162,16 +166,16 @@ Definition step (v : variant) (b : backend) (ttl : N) (w : world) (e : event) : 
                   | None => w_idx w
                   end in
       (* an older connection of x on THIS node: unregister it from the store, remove it from the registry *)
-      let '(st1, ctl1, idx2) :=
+      let '(st1, ctl1, idx2, cn1) :=
         match idx1 n x with
-        | Some o => if o =? c then (w_st w, w_ctl w, idx1)
+        | Some o => if o =? c then (w_st w, w_ctl w, idx1, w_conns w)
                     else let '(ctl', idx') := reg_remove n o (w_ctl w) idx1 in
-                         (store_unregister v b (w_now w) (w_st w) o, ctl', idx')
-        | None => (w_st w, w_ctl w, idx1)
+                         (store_unregister v b (w_now w) (w_st w) o, ctl', idx', reg_close n o (w_ctl w) (w_conns w))
+        | None => (w_st w, w_ctl w, idx1, w_conns w)
         end in
       {| w_now := w_now w;
          w_st := store_register ttl n (w_now w) st1 c x true;
-         w_conns := w_conns w;
+         w_conns := cn1;
          w_ctl := upd2 ctl1 n c (Some x);
          w_idx := upd2 idx2 n x (Some c) |}
   | AuthFail n c => w
@@ -179,7 +183,8 @@ Definition step (v : variant) (b : backend) (ttl : N) (w : world) (e : event) : 
       match w_idx w n x with
       | Some o => if o =? c then w
                   else let '(ctl', idx') := reg_remove n o (w_ctl w) (w_idx w) in
-                       {| w_now := w_now w; w_st := w_st w; w_conns := w_conns w; w_ctl := ctl'; w_idx := idx' |}
+                       {| w_now := w_now w; w_st := w_st w; w_conns := reg_close n o (w_ctl w) (w_conns w);
+                          w_ctl := ctl'; w_idx := idx' |}
       | None => w
       end
   | Heartbeat n c =>
